@@ -210,6 +210,46 @@ def run_case(r, obs):
                                   "Slice%r and two deep copies of it filled in turn over %r: "
                                   "element %d filled %r, expected %r"
                                   % (args, xs, gi, c.got, [v + 1000 * gi for v in ref]))
+                if n in (5, nmax):
+                    # a copy (copy.copy / copy.deepcopy) taken after k values: the copy goes on
+                    # from position k, and so does the original
+                    import copy
+                    import warnings
+                    for k in sorted(set([1, 2, n // 2, n - 1]) - {0, -1}):
+                        for cname, cp in (("copy.copy", copy.copy),
+                                          ("copy.deepcopy", copy.deepcopy)):
+                            s0 = lena.flow.Slice(*args)
+                            c0 = Collect()
+                            stopped = False
+                            for x in xs[:k]:
+                                try:
+                                    s0.fill_into(c0, x)
+                                except lena.core.LenaStopFill:
+                                    stopped = True
+                                    break
+                            if stopped:
+                                continue
+                            with warnings.catch_warnings():
+                                warnings.simplefilter("ignore")
+                                s1 = cp(s0)
+                            outs = []
+                            for sl in (s1, s0):
+                                cc = Collect()
+                                cc.got = list(c0.got)
+                                for x in xs[k:]:
+                                    try:
+                                        sl.fill_into(cc, x)
+                                    except lena.core.LenaStopFill:
+                                        break
+                                outs.append(cc.got)
+                            obs.count("fill_into_histories", 2)
+                            # (a shallow copy shares the position with the original by
+                            # definition: only the copy, filled first, is judged then)
+                            obs.check(outs[0] == ref and (outs[1] == ref or cname == "copy.copy"),
+                                      "slice-fill_into-differs:copied-after-some-values",
+                                      "Slice%r filled with %r, then %s; the copy filled with the "
+                                      "rest %r collects %r, the original %r, expected %r"
+                                      % (args, xs[:k], cname, xs[k:], outs[0], outs[1], ref))
                 if n == nmax and len(ref) >= 2:
                     # an element whose fill raises StopIteration for one selected value (next()
                     # on an exhausted iterator inside it): that is the element's failure, not
@@ -308,7 +348,8 @@ def run_case(r, obs):
                      "Slice(%r,%r,%r) was accepted at construction" % (a, b, c))
     elif k == "reverse":
         obs.nontrivial = True
-        for n in range(0, 12):
+        for n in list(range(0, 12)) + [127, 128, 129, 200, 255, 256, 257, 300, 511, 513, 700,
+                                        1024, 1025, 1300, 4097]:
             xs = list(range(n))
             got = list(lena.flow.Reverse().run(iter(xs)))
             obs.check(got == list(reversed(xs)), "reverse-differs",
